@@ -91,6 +91,13 @@ func scriptMessages() [][]byte {
 
 // ---- mutations ----
 
+// intBoundary picks a decimal text at or around the limits of the integer widths.
+func intBoundary(r *rand.Rand) string {
+	return core.Pick(r, "9223372036854775807", "9223372036854775806", "9223372036854775000", "-9223372036854775808", "-9223372036854775807",
+		"9223372036854775808", "18446744073709551615", "18446744073709551616", "4611686018427387904", "2147483647", "2147483648", "-2147483648", "-2147483649",
+		"4294967295", "4294967296", "-4294967296", "999999", "1000000", "-1", "0")
+}
+
 func mutate(r *rand.Rand, raw []byte) []byte {
 	fs, err := fixwire.Scan(raw, false)
 	if err != nil || len(fs) < 4 {
@@ -110,7 +117,7 @@ func mutate(r *rand.Rand, raw []byte) []byte {
 		return fixwire.Build(fs[0].Val, rest)
 	}
 	c := append(fixwire.Fields{}, fs...)
-	switch r.Intn(22) {
+	switch r.Intn(23) {
 	case 0: // truncate
 		return append([]byte{}, raw[:r.Intn(len(raw))]...)
 	case 1: // empty value on a field, framing recomputed
@@ -122,7 +129,7 @@ func mutate(r *rand.Rand, raw []byte) []byte {
 	case 3: // drop the trailer
 		return fixwire.Encode(c[:len(c)-1])
 	case 4: // hostile BodyLength
-		c[1].Val = core.Pick(r, "", "-1", "0", "99999999999", "9999999999999999999999", "1e3", " 5", "-", "--5")
+		c[1].Val = core.Pick(r, "", "-1", "0", "99999999999", "9999999999999999999999", "1e3", " 5", "-", "--5", intBoundary(r), intBoundary(r))
 		return fixwire.Encode(c)
 	case 5: // XMLDataLen huge/negative/empty with and without data
 		ins := fixwire.Fields{{Tag: 212, Val: core.Pick(r, "9999", "-5", "", "0", "3", "99999999999999999999")}}
@@ -200,6 +207,17 @@ func mutate(r *rand.Rand, raw []byte) []byte {
 		return append(b, []byte(core.Pick(r, "10=", "58", "=", "9=5"))...)
 	case 20: // empty
 		return []byte{}
+	case 21: // integer boundaries on a numeric field (sequence numbers, ranges, counts, intervals, lengths)
+		var idx []int
+		for i, f := range c {
+			if i >= 2 && f.Tag != 10 && f.Val != "" && strings.Trim(f.Val, "0123456789") == "" {
+				idx = append(idx, i)
+			}
+		}
+		if len(idx) > 0 {
+			c[idx[r.Intn(len(idx))]].Val = intBoundary(r)
+			return reframe(c)
+		}
 	}
 	return append([]byte{}, raw...)
 }
@@ -493,7 +511,7 @@ func runStream(c *core.Ctx, r *core.Result) {
 				m = mutate(rng, m)
 			}
 			if rng.Intn(6) == 0 {
-				m = []byte(core.Pick(rng, "8=FIX.4.2\x019=99999999999999999999\x01", "8=\x019=-\x01", "8=FIX\x019=2\x0110=\x01", "\x019=5\x018=", "8=8=8=\x019=\x019=3\x01"))
+				m = []byte(core.Pick(rng, "8=FIX.4.2\x019=99999999999999999999\x01", "8=\x019=-\x01", "8=FIX\x019=2\x0110=\x01", "\x019=5\x018=", "8=8=8=\x019=\x019=3\x01", "8=FIX.4.2\x019="+intBoundary(rng)+"\x0135=0\x0110=000\x01", "8=FIX.4.2\x019="+intBoundary(rng)+"\x01"))
 			}
 			buf.Write(m)
 		}
